@@ -147,7 +147,30 @@ def field_narrowings(ctx: Ctx, c: ClassInfo, f: FieldInfo) -> List[Tuple[str, Tu
         val = Sym('value')
         outs = ctx.ev.run(vfi, {params[0]: self_t, params[2]: val}, self_cls=c)
         for o in outs:
-            for call in method_calls(list(o.effects) + list(o.trace), '_type_check'):
+            # the primitives, wherever the helpers put them: the intersection test value.data_type & T (checked), and
+            # object.__setattr__(value, 'data_type', ... value.data_type & T ...) (narrowed)
+            prim: Dict[str, List] = {}
+            vdt = Attr(val, 'data_type')
+            for e in list(o.effects) + list(o.trace) + [g for g, _ in o.guards]:
+                stores = [x for x in walk(e) if isinstance(x, Call) and isinstance(x.func, Ext) and x.func.name in ('object.__setattr__', 'setattr')
+                          and len(x.args) == 3 and x.args[0] == val and x.args[1] == Const('data_type')]
+                for x in walk(e):
+                    tt = None
+                    if isinstance(x, Op) and x.op == '&' and len(x.args) == 2 and vdt in x.args:
+                        tt = x.args[1] if x.args[0] == vdt else x.args[0]
+                    elif isinstance(x, Call) and call_name(x) in ('cast', 'can_be') and call_recv(x) == vdt and x.args:
+                        tt = x.args[0]
+                    if tt is None:
+                        continue
+                    td = _type_desc(ctx, tt, self_t)
+                    if td:
+                        narrowed = any(any(y == x for y in walk(st.args[2])) for st in stores)
+                        ent = prim.setdefault(repr(td), [td, False])
+                        ent[1] = ent[1] or narrowed
+            for td, narrowed in prim.values():
+                out.append((f'validator {vfi.name}' + (' force' if narrowed else ''), td, bool(narrowed), vfi.where))
+            if not prim:
+              for call in method_calls(list(o.effects) + list(o.trace), '_type_check'):
                 if call_recv(call) == self_t and call.args and call.args[0] == val and len(call.args) >= 2:
                     td = _type_desc(ctx, call.args[1], self_t)
                     force = call.kw('force') == Const(True)
